@@ -172,7 +172,8 @@ def merge(a, b):
     for kk, v in b["maxdiff"].items():
         a["maxdiff"][kk] = max(a["maxdiff"].get(kk, 0.0), v)
     for k in ("states", "interleavings", "cases", "nontrivial_cases"):
-        a[k] |= b[k]
+        if len(a[k]) < 4_000_000:  # memory guard; the evidence then reports a lower bound
+            a[k] |= b[k]
     a["samples"] += b["samples"]
     a["violations"] += b["violations"]
     a["harness"] += b["harness"]
